@@ -15,7 +15,7 @@ RULE = ("namecoin/dogecoin chains whose blocks carry an AuxPoW section iff versi
         "branches of length 0..40 (and 252/253/300 -> 3-byte CompactSize), random masks and parent headers; block versions threshold-1, "
         "threshold, threshold+1, 0xffffffff, 1, mixed within one chain. Real csvdump (+unspent/simplestats sample) with --verify: output "
         "must equal the model, which ignores the section (blocksize = stored length). Negative control: the six other coins with the same "
-        "high-version blocks stored without a section; a third of the directories are XOR-obfuscated (sections read through the XOR reader at unaligned offsets). distinct = (coin, version class, coinbase form, branch length class) signatures")
+        "high-version blocks stored without a section; a third of the directories are XOR-obfuscated (sections read through the XOR reader at unaligned offsets). Control cases without -c (Bitcoin is the default coin) on directories named like other coins' default folders, and AuxPoW coins with -c on foreign-named directories. distinct = (coin, version class, coinbase form, branch length class) signatures")
 
 AUX_COINS = ["namecoin", "dogecoin"]
 CHAIN_IDS = list(range(0, 33)) + [0x32, 0x5a, 0x62, 0x63, 0x7f, 0x80, 0xff, 0x100, 0x1000, 0x2000, 0x7fff, 0xffff]
